@@ -179,8 +179,25 @@ static size_t run_entry(int entry, const P* p, void* dst, size_t cap, const void
 }
 
 /* ------------------------------------------------------------------ frame analysis (wire blocks + regenerated sizes) */
-typedef struct { int type; size_t cs; size_t regen; } wblk;
-static wblk g_blocks[4096]; static size_t g_nbBlocks;
+typedef struct { int type; size_t cs; size_t regen; size_t lit; } wblk;
+static wblk g_blocks[4096]; static size_t g_nbBlocks; static size_t g_frameBsMax;
+/* regenerated size announced by the literals section header of a compressed block (format, section 3.1.1.3.1.1) */
+static size_t lit_size(const unsigned char* p, size_t avail)
+{
+    unsigned t, f;
+    if (avail < 1) return 0;
+    t = p[0] & 3; f = (p[0] >> 2) & 3;
+    if (t < 2) {   /* raw / rle */
+        if (f == 0 || f == 2) return p[0] >> 3;
+        if (f == 1) return avail >= 2 ? (size_t)((p[0] | (p[1] << 8)) >> 4) : 0;
+        return avail >= 3 ? (size_t)((p[0] | (p[1] << 8) | (p[2] << 16)) >> 4) : 0;
+    }
+    if (avail < 5) return 0;
+    {   unsigned const v = p[0] | (p[1] << 8) | (p[2] << 16) | ((unsigned)p[3] << 24);
+        if (f < 2) return (v >> 4) & 0x3FF;
+        if (f == 2) return (v >> 4) & 0x3FFF;
+        return (v >> 4) & 0x3FFFF; }
+}
 static unsigned char* g_scratch; static size_t g_scratchCap;
 
 /* returns 0 on success; fills g_blocks; *hs, *chk */
@@ -189,7 +206,7 @@ static int analyze_frame(const unsigned char* f, size_t fsize, size_t* hs, int* 
     ZSTD_frameHeader zfh; size_t pos, dpos = 0;
     g_nbBlocks = 0;
     if (ZSTD_getFrameHeader(&zfh, f, fsize) != 0) return 1;
-    *hs = zfh.headerSize; *chk = (int)zfh.checksumFlag;
+    *hs = zfh.headerSize; *chk = (int)zfh.checksumFlag; g_frameBsMax = zfh.blockSizeMax;
     if (ZSTD_isError(g_useDict ? ZSTD_decompressBegin_usingDict(g_dctx, g_dict, g_dictSize) : ZSTD_decompressBegin(g_dctx))) return 1;
     pos = 0;
     for (;;) {
@@ -203,6 +220,7 @@ static int analyze_frame(const unsigned char* f, size_t fsize, size_t* hs, int* 
             g_blocks[g_nbBlocks].type = (int)((h >> 1) & 3);
             g_blocks[g_nbBlocks].cs = (g_blocks[g_nbBlocks].type == 1) ? 1 : (h >> 3);
             g_blocks[g_nbBlocks].regen = 0;
+            g_blocks[g_nbBlocks].lit = (g_blocks[g_nbBlocks].type == 2 && pos + 3 < fsize) ? lit_size(f + pos + 3, fsize - pos - 3) : 0;
         }
         r = ZSTD_decompressContinue(g_dctx, g_scratch + dpos, g_scratchCap - dpos, f + pos, need);
         if (ZSTD_isError(r)) return 1;
@@ -272,16 +290,53 @@ static void set_cap_desc(const char* fmt, size_t a, int b, const char* tag, size
 }
 
 /* exact / short / long capacities: error below the decoded size, exact content from it on */
+static region g_ddstS, g_dsrcS;   /* small regions: cheap to re-arm when many capacities of a small frame are swept */
 static void dec_cap(size_t n, size_t csize, size_t c, int placement)
 {
-    unsigned char* const ds = region_place(&g_dsrcR, csize, placement); unsigned char* dd; size_t d;
+    region* const RS = (csize <= 12000) ? &g_dsrcS : &g_dsrcR;
+    region* const RD = (c <= 12000) ? &g_ddstS : &g_ddstR;
+    unsigned char* const ds = region_place(RS, csize, placement); unsigned char* dd; size_t d;
     memcpy(ds, g_out, csize);
-    dd = region_place(&g_ddstR, c, placement);
+    dd = region_place(RD, c, placement);
     set_cap_desc("", c, placement, "DECODE", 0);
     d = decode_any(dd, c, ds, csize);
-    if (region_check(&g_ddstR, dd, c, placement)) bad("decoder-write-outside-dst", c, d);
+    if (region_check(RD, dd, c, placement)) bad("decoder-write-outside-dst", c, d);
     if (c < n) { if (!ZSTD_isError(d)) bad("decoder-accepted-short-capacity", c, d); }
     else if (ZSTD_isError(d) || d != n || memcmp(dd, g_input, n)) bad("decoder-failed-with-exact-capacity", c, d);
+}
+
+
+/* buffer-less decoding (ZSTD_decompressContinue): every block gets EXACTLY the capacity it regenerates, in a linear
+   buffer of n bytes that ends at the fence (a store past a block's capacity hits the canary that marks the room of the
+   later blocks, or the fence for the last block); with one byte less for block [shortAt] the call must fail */
+static void dec_bufferless(size_t n, size_t csize, long long shortAt)
+{
+    unsigned char* const ds = region_place((csize <= 12000) ? &g_dsrcS : &g_dsrcR, csize, 0);
+    region* const RD = (n <= 12000) ? &g_ddstS : &g_ddstR;
+    unsigned char* const base = region_place(RD, n, 0);
+    size_t pos = 0, dpos = 0, k = 0;
+    memcpy(ds, g_out, csize);
+    set_cap_desc("", n, 0, "BUFLESS", (size_t)(shortAt + 1));
+    if (ZSTD_isError(g_useDict ? ZSTD_decompressBegin_usingDict(g_dctx, g_dict, g_dictSize) : ZSTD_decompressBegin(g_dctx))) { bad("bufferless-begin-failed", n, 0); return; }
+    for (;;) {
+        size_t const need = ZSTD_nextSrcSizeToDecompress(g_dctx);
+        ZSTD_nextInputType_e const t = ZSTD_nextInputType(g_dctx);
+        size_t cap, r; int const isBlock = (t == ZSTDnit_block || t == ZSTDnit_lastBlock);
+        if (need == 0) break;
+        if (pos + need > csize) { bad("bufferless-wants-more-than-the-frame", n, need); return; }
+        cap = 0;
+        if (isBlock && k < g_nbBlocks) { cap = g_blocks[k].regen; if ((long long)k == shortAt) { if (cap == 0) return; cap--; } }
+        memset(base + dpos + cap, CANARY, n - dpos - cap);
+        r = ZSTD_decompressContinue(g_dctx, base + dpos, cap, ds + pos, need);
+        { size_t j; for (j = dpos + cap; j < n; j++) if (base[j] != CANARY) { bad("bufferless-write-beyond-block-capacity", cap, r); return; } }
+        if (region_check(RD, base, n, 0)) { bad("bufferless-write-below-dst", cap, r); return; }
+        if (isBlock && (long long)k == shortAt) { if (!ZSTD_isError(r)) bad("bufferless-accepted-short-block-capacity", cap, r); return; }
+        if (ZSTD_isError(r)) { bad("bufferless-failed-with-exact-block-capacity", cap, r); return; }
+        if (r > cap) { bad("bufferless-returned-more-than-capacity", cap, r); return; }
+        if (isBlock) { k++; } else if (t == ZSTDnit_blockHeader) { ZSTD_nextInputType_e const t2 = ZSTD_nextInputType(g_dctx); if (t2 != ZSTDnit_block && t2 != ZSTDnit_lastBlock) k++; }
+        dpos += r; pos += need;
+    }
+    if (shortAt < 0 && (dpos != n || memcmp(base, g_input, n))) bad("bufferless-wrong-content", n, dpos);
 }
 
 /* truncated sources (read side fenced): an error, never a fault; the inspectors must not read past the end either */
@@ -414,11 +469,30 @@ static void sweep_case(int kind, unsigned long long iseed, size_t n, int entry, 
 
     /* ---- decompression side: capacities around the exact size, truncated and damaged sources ---- */
     g_shared[0] = (size_t)-1;
-    {   size_t dc[64]; size_t ndc = 0, k; size_t e = 0;
-#define DADD(v) do { long long v_ = (long long)(v); if (v_ >= 0 && (size_t)v_ <= n + 2 && ndc < 60) dc[ndc++] = (size_t)v_; } while (0)
+    {   static size_t dc[4200]; size_t ndc = 0, k; size_t e = 0;
+        size_t const dmax = 2 * n + 400;
+#define DADD(v) do { long long v_ = (long long)(v); if (v_ >= 0 && (size_t)v_ <= dmax && (size_t)v_ <= n + (1u << 17) + 400 && ndc < 4190) dc[ndc++] = (size_t)v_; } while (0)
         DADD(0); DADD(1); DADD(n / 2); DADD((long long)n - 1); DADD(n); DADD(n + 1);
         for (k = 0; k < g_nbBlocks && k < 6; k++) { e += g_blocks[k].regen; DADD((long long)e - 1); DADD(e); }
-        for (k = 0; k < ndc; k++) dec_cap(n, csize, dc[k], (int)((caseId + k) & 1));
+        /* capacities ABOVE the content size: the single-pass decoder places literals inside dst when
+           remaining capacity > blockSizeMax + WILDCOPY_OVERLENGTH + litSize + WILDCOPY_OVERLENGTH; wild copies may then
+           read up to 32 bytes past the literals - which must still be inside dst */
+        if (n <= (size_t)(tier ? 8000 : 1800)) { size_t c; for (c = n + 2; c <= dmax; c++) DADD(c); }
+        else {
+            static const int ds_[] = { -2, -1, 0, 1, 2, 3, 4, 5, 6, 8, 10, 12, 15, 16, 17, 24, 30, 31, 32, 33, 34, 35, 36, 40, 48, 56, 62, 63, 64, 65, 66, 70 };
+            size_t before = 0, j;
+            for (k = 0; k < g_nbBlocks; k++) {
+                if ((k < 5 || k + 5 >= g_nbBlocks) && g_blocks[k].type == 2)
+                    for (j = 0; j < sizeof ds_ / sizeof ds_[0]; j++) DADD((long long)(before + g_frameBsMax + 32 + g_blocks[k].lit) + ds_[j]);
+                before += g_blocks[k].regen;
+            }
+            DADD(n + 2); DADD(n + 31); DADD(n + 32); DADD(n + 33); DADD(n + 64); DADD(n + 65); DADD(2 * n); DADD(dmax);
+        }
+        /* dst ends at the upper fence for every capacity above the content size (reads past dst fault) */
+        for (k = 0; k < ndc; k++) dec_cap(n, csize, dc[k], dc[k] > n ? 0 : (int)((caseId + k) & 1));
+        dec_bufferless(n, csize, -1);
+        for (k = 0; k < g_nbBlocks && k < 3; k++) dec_bufferless(n, csize, (long long)k);
+        if (g_nbBlocks > 3) dec_bufferless(n, csize, (long long)g_nbBlocks - 1);
         for (k = 0; k < 40; k++) dec_trunc(n, csize, iseed, k);
         for (k = 0; k < (size_t)(tier ? 60 : 24); k++) dec_damage(n, csize, iseed, k);
     }
@@ -780,7 +854,8 @@ int main(int argc, char** argv)
     g_seqCap = ZSTD_sequenceBound(maxN) + 16; g_seqs = (ZSTD_Sequence*)malloc(g_seqCap * sizeof(ZSTD_Sequence));
     if (!g_cctx || !g_gen || !g_dctx || !g_input || !g_ref || !g_out || !g_scratch || !g_seqs) return 2;
     g_dstR = region_new(ZSTD_compressBound(maxN) + 256); g_srcR = region_new(maxN + 16);
-    g_ddstR = region_new(maxN + 64); g_dsrcR = region_new(ZSTD_compressBound(maxN) + 256);
+    g_ddstR = region_new(maxN + (1u << 17) + 1024); g_dsrcR = region_new(ZSTD_compressBound(maxN) + 256);
+    g_ddstS = region_new(12000); g_dsrcS = region_new(12000);
     g_ipR = region_new(5 * maxN + 5 * 140000 + 65536);
 
     if (!strcmp(argv[1], "sweep") && argc >= 6) {
@@ -817,13 +892,18 @@ int main(int argc, char** argv)
         if (entry == E_SEQ) prepare_seqs(&p, g_input, n);
         snprintf(g_desc, sizeof g_desc, "replay kind=%d n=%zu entry=%d cap=%zu placement=%d", kind, n, entry, cap, placement);
         { static size_t dummy[1]; g_shared = dummy; }
-        if (argc > 19 && (!strcmp(argv[19], "DECODE") || !strcmp(argv[19], "TRUNC") || !strcmp(argv[19], "DAMAGE"))) {
+        if (argc > 19 && (!strcmp(argv[19], "DECODE") || !strcmp(argv[19], "TRUNC") || !strcmp(argv[19], "DAMAGE") || !strcmp(argv[19], "BUFLESS"))) {
             /* decoder-side replay: produce the frame with ample room, then redo the recorded decoder step */
             size_t const k = argc > 20 ? (size_t)strtoull(argv[20], NULL, 10) : 0;
             size_t const csize = fenced_compress(entry, &p, n, ZSTD_compressBound(n) + 64, 0, 1);
             if (ZSTD_isError(csize)) { printf("RESULT ample compression failed\n"); return 1; }
             memcpy(g_out, g_dstR.hi - (ZSTD_compressBound(n) + 64), csize);
             snprintf(g_desc, sizeof g_desc, "replay kind=%d n=%zu entry=%d CAP %zu %d %s %zu", kind, n, entry, cap, placement, argv[19], k);
+            if (!strcmp(argv[19], "BUFLESS")) {
+                size_t hs0, tot0; int chk0;
+                if (analyze_frame(g_out, csize, &hs0, &chk0, &tot0)) { printf("RESULT frame not analysable\n"); return 1; }
+                dec_bufferless(n, csize, (long long)k - 1);
+            } else
             if (!strcmp(argv[19], "DECODE")) dec_cap(n, csize, cap, placement);
             else if (!strcmp(argv[19], "TRUNC")) dec_trunc(n, csize, iseed, k);
             else dec_damage(n, csize, iseed, k);
